@@ -45,6 +45,7 @@ type evalCtx struct {
 	st    *State
 	old   *State
 	bound []map[string]Term
+	lets  map[string]Expr
 }
 
 func (c *evalCtx) withState(st *State) *evalCtx {
@@ -226,7 +227,19 @@ func (c *evalCtx) eval(e Expr) Term {
 		if x.Forall {
 			kw = "forall"
 		}
-		return Term{fmt.Sprintf("(%s (%s) %s)", kw, strings.Join(decl, " "), body.S), sortBool}
+		bs := body.S
+		if len(x.Triggers) > 0 {
+			var pats []string
+			for _, alt := range x.Triggers {
+				var ts []string
+				for _, te := range alt {
+					ts = append(ts, n.concrete(n.eval(te)).S)
+				}
+				pats = append(pats, ":pattern ("+strings.Join(ts, " ")+")")
+			}
+			bs = "(! " + bs + " " + strings.Join(pats, " ") + ")"
+		}
+		return Term{fmt.Sprintf("(%s (%s) %s)", kw, strings.Join(decl, " "), bs), sortBool}
 	case *EField:
 		// package-qualified identifier?
 		if id, ok := x.X.(*EIdent); ok {
@@ -294,6 +307,9 @@ func (c *evalCtx) ident(name string) Term {
 	w := c.w
 	if t, ok := c.lookup(name); ok {
 		return t
+	}
+	if e, ok := c.lets[name]; ok {
+		return c.eval(e)
 	}
 	switch name {
 	case "true":
@@ -682,7 +698,7 @@ func (c *evalCtx) index(base, idx Term) Term {
 		es := w.sortOf(et)
 		h := w.elemHeap(es)
 		i := w.toIdx(c.concrete(idx))
-		return Term{fmt.Sprintf("(select (select %s (s-arr %s)) %s)", w.heapSym(c.st, h), base.S, w.iadd("(s-off "+base.S+")", i)), es}
+		return Term{fmt.Sprintf("(select (select %s (s-arr %s)) %s)", w.heapSym(c.st, h), base.S, w.sidx("(s-off "+base.S+")", i)), es}
 	case KArray:
 		i := w.toIdx(c.concrete(idx))
 		return Term{fmt.Sprintf("(select %s %s)", base.S, i), base.Sort.Elem}
@@ -790,6 +806,10 @@ func (c *evalCtx) call(x *ECall) Term {
 			f = "s-arr"
 		}
 		return Term{fmt.Sprintf("(%s %s)", f, a.S), w.mathOrInt()}
+	case "sidx":
+		a := w.toIdx(c.concrete(c.eval(x.Args[0])))
+		b := w.toIdx(c.concrete(c.eval(x.Args[1])))
+		return Term{w.sidx(a, b), w.goInt()}
 	case "fresh":
 		a := c.eval(x.Args[0])
 		if c.old == nil {
